@@ -62,10 +62,13 @@ theorem C07_metadata_merge_legacy_writes :
 allocates: the seed it was handed (the stored event when there is no read mask) is unchanged, and
 what the subscriber receives is the fresh cell. -/
 theorem C07_enterleave_seed_frame (h : Heap ELE) (next seed : Ref) (hs : seed < next) :
-    (∀ r, r < next → (seedEdit h next seed).1 r = h r) ∧ (seedEdit h next seed).2 = next ∧
+    (∀ r, r < next → (seedEdit h next seed).1 r = h r) ∧ (seedEdit h next seed).1 seed = h seed ∧
+    (seedEdit h next seed).2 = next ∧
     (seedEdit h next seed).1 next = { h seed with direction := 0, occupant := none } := by
-  refine ⟨fun r hr => ?_, rfl, by simp [seedEdit, Heap.set]⟩
-  simp [seedEdit, Heap.set, Nat.ne_of_lt hr]
+  have hf : ∀ r, r < next → (seedEdit h next seed).1 r = h r := by
+    intro r hr
+    simp [seedEdit, Heap.set, Nat.ne_of_lt hr]
+  exact ⟨hf, hf seed hs, rfl, by simp [seedEdit, Heap.set]⟩
 
 /-- the pre-fix code cleared occupant and direction on the seed itself -/
 theorem C07_enterleave_seed_legacy_writes :
